@@ -27,6 +27,9 @@ type Rev struct {
 	ErrorStmt     string
 	Hash          string
 	Partial       string
+	// Stamp holds the label columns executed_at and operator_version as stored. It is a wall-clock
+	// reading: compared between two observations of one run, never printed, never part of a digest.
+	Stamp string
 }
 
 // String renders the revision.
@@ -124,14 +127,14 @@ func (d *Dump) read(db *sql.DB) error {
 		d.Rows[t] = rs
 	}
 	if d.HasRevTbl {
-		rows, err := db.Query("SELECT version, description, type, applied, total, coalesce(error,''), coalesce(error_stmt,''), hash, coalesce(partial_hashes,'') FROM " + RevTable + " ORDER BY version")
+		rows, err := db.Query("SELECT version, description, type, applied, total, coalesce(error,''), coalesce(error_stmt,''), hash, coalesce(partial_hashes,''), coalesce(cast(executed_at AS text),'')||'/'||coalesce(operator_version,'') FROM " + RevTable + " ORDER BY version")
 		if err != nil {
 			return err
 		}
 		defer rows.Close()
 		for rows.Next() {
 			var r Rev
-			if err := rows.Scan(&r.Version, &r.Desc, &r.Type, &r.Applied, &r.Total, &r.Error, &r.ErrorStmt, &r.Hash, &r.Partial); err != nil {
+			if err := rows.Scan(&r.Version, &r.Desc, &r.Type, &r.Applied, &r.Total, &r.Error, &r.ErrorStmt, &r.Hash, &r.Partial, &r.Stamp); err != nil {
 				return err
 			}
 			d.Revs = append(d.Revs, r)
@@ -228,6 +231,18 @@ func (d *Dump) RevFull() string {
 		parts = append(parts, fmt.Sprintf("%s|%s|%d|%d|%d|%s|%s|%s|%s", r.Version, r.Desc, r.Type, r.Applied, r.Total, r.Error, r.ErrorStmt, r.Hash, r.Partial))
 	}
 	return strings.Join(parts, "\n")
+}
+
+// Restamped lists the versions present in both observations whose label columns (executed_at,
+// operator_version) differ.
+func (d *Dump) Restamped(before *Dump) []string {
+	var out []string
+	for _, r := range d.Revs {
+		if b, ok := before.Rev(r.Version); ok && b.Stamp != r.Stamp {
+			out = append(out, r.Version)
+		}
+	}
+	return out
 }
 
 // Digest hashes everything that is compared.
